@@ -58,6 +58,16 @@ class CaseResult:
         self.clock_span = None             # (min, max) simulated instants
 
 
+def replay_document(mod, rp):
+    """True when the replay document reproduces its violation class on the current tree"""
+    if rp.get("kind") == "regenerate":
+        m = __import__(rp["module"])
+        cr = m.run_case(rp["seed"], rp["case"], rp["tier"])
+        cls = set(v.cls for v in cr.violations)
+        return (rp.get("class") in cls) if rp.get("class") else bool(cls)
+    return mod.replay(rp)
+
+
 def _worker(args):
     mod_name, seed, i, tier = args
     try:
@@ -171,8 +181,14 @@ def run_check(prop_id, mod_name, tier, n_cases, wall_cap, level, rule, assumptio
                 continue
             reported.add(v.cls)
             rp = v.replay
+            if rp is None:
+                # too large to inline (a multi-megabyte shipped journal in the scenario): the run is a pure function of
+                # (VERIF_SEED, case index, tier), so the replay document names those and the case is regenerated
+                rp = {"kind": "regenerate", "module": mod_name, "seed": seed, "case": i, "tier": tier}
             try:
-                if hasattr(mod, "minimise") and rp is not None:
+                if rp.get("kind") == "regenerate":
+                    pass
+                elif hasattr(mod, "minimise") and rp is not None:
                     rp = mod.minimise(rp, v.cls)
                 elif hasattr(mod, "classes_of") and rp is not None:
                     rp = minimise_schedule(rp, v.cls, mod.classes_of)
@@ -185,7 +201,7 @@ def run_check(prop_id, mod_name, tier, n_cases, wall_cap, level, rule, assumptio
                 json.dump(doc, fh, indent=1)
             # confirm in-process that the written file reproduces
             try:
-                again = mod.replay(json.load(open(path))["replay"] | {"class": v.cls})
+                again = replay_document(mod, json.load(open(path))["replay"] | {"class": v.cls})
             except Exception:
                 again = None
             print("VIOLATION property=%s replay=%s" % (prop_id, path))
